@@ -117,7 +117,11 @@ def get_type_graph(t: type) -> graphlib.TopologicalSorter[TypeNode]:
     while stack:
         parent = stack.popleft()
         parent_unwrapped = inspection.unwrap(parent.type)
-        if inspection.isliteral(parent_unwrapped):
+        # Literals and unresolvable types (`Any`, `Callable[[int], str]`...) are leaves:
+        #   their arguments are values or opaque, not member types.
+        if inspection.isliteral(parent_unwrapped) or inspection.isunresolvable(
+            parent_unwrapped
+        ):
             graph.add(parent)
             continue
 
